@@ -293,6 +293,8 @@ def failure_edge(fn, call, kind, var_d=None):
 
 
 def run(ctx, prog):
+    from rules import jsonparse
+    jsonparse.r_validafter(ctx, prog)
     cg, ext = prog.callgraph()
     rule = "R-FALLIBLE"
     n_sites = 0
